@@ -188,8 +188,8 @@ def run_case(sh, s, d, case):
                 demo_top.pack(1e11, referencesf, gc=False) if stack in ('map/map', 'file/map', 'push', 'pop') else demo_top.pack(1e11, referencesf)
                 dr.trace.append('pack')
             except Exception as e:
-                sh.note('pack_exceptions', '%s:%s' % (stack, type(e).__name__))
-                sh.count('packs_raised')
+                sh.violation('c16:%s:pack-through-demo-raises-%s' % (stack, type(e).__name__), {'exc': repr(e)[:200], 'trace': trace + dr.trace}, case)
+                return None
             for o, v in cur_before.items():
                 try:
                     now = demo_top.load(o)
